@@ -223,6 +223,8 @@ class Runner(object):
             obj.delete(); return ['ok']
         if k == 'pk':
             return ['val', obj.id]
+        if k == 'flushobj':
+            obj.flush(); return ['ok']
         if k == 'setmany':
             kw = op[2]
             if any(j >= len(attrs) for j, _ in kw): return ['err', 'BadAttr']
